@@ -1152,6 +1152,8 @@ func runCase(raw json.RawMessage) (res interface{}) {
 		runDialog(&c, out)
 	case "pool":
 		runPool(&c, out)
+	case "listener":
+		runListener(&c, out)
 	default:
 		panic("bad mode " + c.Mode)
 	}
